@@ -4,7 +4,7 @@ From Coq Require Import List NArith ZArith Bool.
 From Coq Require Import Sorted.
 From Gluon Require Import Model.SeqSet Proofs.SeqSetProofs.
 From Gluon Require Import Gen.FactsUidRange Proofs.UidRangeCodeProofs.
-From Gluon Require Import Gen.FactsInterval Proofs.IntervalCodeProofs.
+From Gluon Require Import Gen.FactsInterval Gen.FactsResolve Proofs.IntervalCodeProofs.
 From Gluon Require Model.Responders Model.Session Proofs.SetProofs.
 Import ListNotations.
 Open Scope N_scope.
@@ -100,6 +100,20 @@ Theorem C16_interval_model_is_translated_code : forall code, code = seq_interval
   code (resZ r) seqnum_asterisk_value (enc b) (enc e) = pairZ (resolve_interval r (b, e)).
 Proof. exact interval_code_is_model. Qed.
 Print Assumptions C16_interval_model_is_translated_code.
+
+(* T1: resolveSeq and resolveUID as translated (Gen/FactsResolve.v; the uint32 conversions written as narrowZ = mod 2^32):
+   resolveSeq never fails and is the model's resolve_seq; resolveUID fails exactly on the empty view - the case
+   impl_uid answers with the empty selection before resolving anything - and otherwise is the model's resolve_uid. *)
+Theorem C16_resolve_seq_model_is_translated_code : forall cnt lastuid a, pnz a ->
+  resolve_seq_code narrowZ (Z.of_N cnt) lastuid seqnum_asterisk_value (enc a) = Some (Z.of_N (resolve_seq cnt a)).
+Proof. exact resolve_seq_code_is_model. Qed.
+Print Assumptions C16_resolve_seq_model_is_translated_code.
+
+Theorem C16_resolve_uid_model_is_translated_code : forall uids a, pnz a ->
+  resolve_uid_code narrowZ (Z.of_nat (length uids)) (Z.of_N (last_uid uids)) seqnum_asterisk_value (enc a) =
+  match uids with [] => None | _ => Some (Z.of_N (resolve_uid uids a)) end.
+Proof. exact resolve_uid_code_is_model. Qed.
+Print Assumptions C16_resolve_uid_model_is_translated_code.
 
 Example C16_interval_code_example :
   seq_interval_code (resZ (resolve_seq 5)) seqnum_asterisk_value (enc PStar) (enc (PNum 7)) = (7, 7)%Z /\
